@@ -116,10 +116,8 @@ theorem projProps_ext : (pr : PatProps) → ∀ (o : ObjMap) (i total : Nat) (re
     rw [projProps] at h
     refine seqP_ext h (fun bs1 σ1 e => ?_) (fun _ _ _ e => projProps_ext r _ _ _ _ _ _ _ e)
     split at e
-    · cases e; exact PExt.refl _
-    · split at e
-      · cases e
-      · exact proj_ext p _ _ _ _ e
+    · cases e
+    · exact proj_ext p _ _ _ _ e
   | .rest x l r, o, i, total, rem, σ, bs, σ', h => by
     rw [projProps] at h
     split at h
@@ -344,12 +342,9 @@ theorem pmatchProps_agree : (pr : PatProps) → ∀ (o : ObjMap) (i total : Nat)
   | .pair k lk p r, o, i, total, rem, names, m, σ => by
     rw [pmatchProps, projProps]
     refine Agree.seq ?_ (fun _ _ _ => pmatchProps_agree r _ _ _ _ _ _ _)
-    by_cases hx : k = c!"_"
-    · rw [if_pos hx, if_pos hx]; exact Agree.ok_nil names m σ
-    · rw [if_neg hx, if_neg hx]
-      cases objGet k o with
-      | none => exact Agree.err _ _ _ _ _ _
-      | some v => exact pmatch_agree p _ _ _ _
+    cases objGet k o with
+    | none => exact Agree.err _ _ _ _ _ _
+    | some v => exact pmatch_agree p _ _ _ _
   | .rest x l r, o, i, total, rem, names, m, σ => by
     rw [pmatchProps, projProps]
     by_cases h1 : i ≠ total - 1
